@@ -669,6 +669,40 @@ pub fn run_c06(tier: &str) -> i32 {
     merged.merge(reuse_pass("C06", &protos));
     merged.merge(conflation_pass("C06", &protos));
     merged.merge(size_ladder_pass("C06", &protos, quick));
+    // bytes moved across the footer / assertion boundary of the pre-authentication encoding (see C03's
+    // pae-resplice pass for the construction): assertion = A || le64(5) || "tail!" with |A| = s - 8; presenting
+    // the token with the footer f || le64(5) || A (segment and expectation) and the assertion "tail!" shifts the
+    // boundary by s bytes. "tail!" is not the assertion the token was built with: refused.
+    {
+        let units: Vec<(Proto, Layer, usize)> = units_proto_layer(&protos).into_iter().flat_map(|(p, l)| [128usize, 256, 65_536].into_iter().map(move |s| (p, l, s))).collect();
+        let accs = par_units(&units, |(p, l, shift)| {
+            let mut acc = Acc::default();
+            let key = domains::key_pool(*p)[0].clone();
+            let seed = seed_for(*p);
+            let le5 = "\u{5}\0\0\0\0\0\0\0";
+            let a = "a".repeat(*shift - 8);
+            let assertion = format!("{}{}tail!", a, le5);
+            let case = IssueCase::new(*p, *l, &key, seed.as_deref(), "{\"data\":\"x\"}", &Some("f".into()), &Some(assertion.clone()));
+            let Some(token) = issue_with_control(&case, &mut acc) else { return acc };
+            let Some(seg) = footer_segment(&token) else { return acc };
+            let head = &token[..token.len() - seg.len()];
+            let long_footer = format!("f{}{}", le5, a);
+            let t2 = format!("{}{}", head, b64::encode(long_footer.as_bytes()));
+            for (tag, text, f, asr) in [
+                ("pae-resplice:footer-grown-assertion-tail", t2.as_str(), Some(long_footer.clone()), Some("tail!".to_string())),
+                ("pae-resplice:assertion-tail-only", token.as_str(), Some("f".to_string()), Some("tail!".to_string())),
+                ("pae-resplice:assertion-head-only", token.as_str(), Some("f".to_string()), Some(a.clone())),
+            ] {
+                let mut pres = Presentation::of(&case, text);
+                pres.footer = f;
+                pres.assertion = asr;
+                check("C06", tag, &case, &token, &pres, Some(false), &mut acc);
+                acc.choice_points += 1;
+            }
+            acc
+        });
+        merged.merge(Acc::merge_all(accs));
+    }
     finish(
         run,
         merged,
